@@ -444,8 +444,8 @@ fn initial(rep: &Reporter) {
                         st.insert(Random::new(seed));
                         let r = catch(|| initialization::RandomSpread::new::<Real, f64>(n).execute(&problem, &mut st).map_err(|e| e.to_string()));
                         let ok = matches!(r, Ok(Ok(())))
-                            && st.populations().current().len() == n as usize
-                            && st.populations().current().iter().all(|i| i.solution().len() == dim && i.solution().iter().zip(&domains).all(|(x, d)| *x >= d.0 && *x < d.1));
+                            && st.populations().len() == 1
+                            && st.populations().get_current().map(|c| c.len() == n as usize && c.iter().all(|i| i.solution().len() == dim && i.solution().iter().zip(&domains).all(|(x, d)| *x >= d.0 && *x < d.1))).unwrap_or(false);
                         if !ok {
                             let bad: Option<Vec<f64>> = st.populations().get_current().and_then(|c| c.iter().find(|i| i.solution().iter().zip(&domains).any(|(x, d)| !(*x >= d.0 && *x < d.1))).map(|i| i.solution().clone()));
                             rep.violation("RandomSpread:coordinate-outside-the-bounds-of-its-own-axis", json!({"requested": n, "domains": domains, "result": format!("{r:?}"), "offending_solution": bad}));
